@@ -574,6 +574,48 @@ def run_case(case):
         elif errs and w_maybe and all(e["kind"] == "read-returns-wrong-byte" for e in errs):
             k2 = kind or "slave-write-error-responses-not-propagated"
             errs[:] = [dict(info, kind=k2, first_consequence=errs[0])]
+    # per request (partners with one outstanding request per direction only, so that responses pair with slave-side events by
+    # time): an error answer needs a slave-side error of that direction since the previous answer; an OKAY answer must not
+    # have one. Catches stale / spurious error responses and errors attributed to the wrong request.
+    if partner == "err-simple" and not errs:
+        sl = {"w": [], "r": []}
+        for a in bench.agents["sys"]:
+            if isinstance(a, WBSlave):
+                for e in a.log:
+                    if e["err"]:
+                        sl["w" if e["we"] else "r"].append(e["done"])
+            elif isinstance(a, (AXILSlave, AXISlave)):
+                sl["w"] += [e[0] for e in a.log["b"] if e[1] != RESP_OKAY]
+                sl["r"] += [e[0] for e in a.log["r"] if e[1] != RESP_OKAY]
+        ms = {"w": [], "r": []}                      # (done cycle, is error)
+        for a in bench.agents["sys"]:
+            if isinstance(a, AXIMaster):
+                ms["w"] += [(e[0], e[1] != RESP_OKAY) for e in a.log["b"]]
+                ms["r"] += [(bu[-1][0], any(x[1] != RESP_OKAY for x in bu)) for bu in a.r_bursts if bu]
+            elif isinstance(a, AXILMaster):
+                ms["w"] += [(e[0], e[1] != RESP_OKAY) for e in a.log["b"]]
+                ms["r"] += [(e[0], e[1] != RESP_OKAY) for e in a.log["r"]]
+            elif isinstance(a, WBMaster):
+                for e in a.log:
+                    ms["w" if e["we"] else "r"].append((e["done"], bool(e["err"])))
+            elif isinstance(a, AHBMaster):
+                for e in a.log:
+                    ms["w" if e["write"] else "r"].append((e["done"], bool(e["resp"])))
+        dropped_dir = {"w": slave_w_errs >= 1 and stats.get("err_w", 0) == 0, "r": slave_r_errs >= 1 and stats.get("err_r", 0) == 0}
+        for d in ("w", "r"):
+            prev = -1
+            for k, (done, is_err) in enumerate(sorted(ms[d])):
+                n = sum(1 for c in sl[d] if prev < c <= done)
+                stats["err_pairings"] = stats.get("err_pairings", 0) + 1
+                if is_err and n == 0:
+                    errs.append({"kind": "error-response-without-slave-side-error", "direction": {"w": "write", "r": "read"}[d], "request": k,
+                                 "answered_at": done, "previous_answer_at": prev, "slave_side_errors_at": sl[d][:12]})
+                    break
+                if not is_err and n > 0 and not dropped_dir[d]:
+                    errs.append({"kind": "slave-side-error-not-reported-for-its-request", "direction": {"w": "write", "r": "read"}[d],
+                                 "request": k, "answered_at": done, "previous_answer_at": prev, "slave_side_errors_at": sl[d][:12]})
+                    break
+                prev = done
     # mechanism tags (used to name root causes; derived from what the partners actually did in this history)
     tags = []
     for a in bench.agents["sys"]:
@@ -614,6 +656,7 @@ def run_shard(shard):
         col.ev("writes", st["writes"])
         col.ev("error_responses_seen", st["err_resps"])
         col.ev("slave_side_errors_injected", st.get("slave_errs", 0))
+        col.ev("error_answers_paired_with_slave_side", st.get("err_pairings", 0))
         col.ev("slave_side_stability_checks", r["stab"])
         col.ev("sim_cycles", r["cycles"])
         col.cov("configs", h({k: v for k, v in cfg.items() if k != "partner"}))
